@@ -171,6 +171,7 @@ type Res struct {
 	Val     uint64
 	Count   int64
 	Cb      []CbView
+	Rows    []vrow // view queries of concurrent programs
 	// Facts reported by the note hooks while the call ran on this goroutine:
 	NewCas    uint64 // CAS drawn by the last transaction of the call
 	Commits   int    // number of committed transactions
